@@ -106,6 +106,7 @@ func runSharded(rc *RunCtx, rep *Report, nWorkers int, body func(sh Shard, rep *
 	var wg sync.WaitGroup
 	outs := make([]string, nWorkers)
 	errs := make([]string, nWorkers)
+	crashes := make([]*workerCrash, nWorkers)
 	for i := 0; i < nWorkers; i++ {
 		i := i
 		outs[i] = filepath.Join(work, fmt.Sprintf("w%d.json", i))
@@ -131,6 +132,13 @@ func runSharded(rc *RunCtx, rep *Report, nWorkers int, body func(sh Shard, rep *
 			logf.Close()
 			if _, err := os.Stat(outs[i]); err != nil {
 				b, _ := os.ReadFile(filepath.Join(work, fmt.Sprintf("w%d.log", i)))
+				if site, msg, exec := crashInRepoCode(string(b)); site != "" {
+					// the code under test brought the whole process down (a panic outside any recover): that is
+					// a finding about the code, not a harness failure; the rest of the shard stays unexplored
+					crashes[i] = &workerCrash{site, msg, exec}
+					errs[i] = ""
+					return
+				}
 				tail := string(b)
 				if len(tail) > 3000 {
 					tail = tail[len(tail)-3000:]
@@ -149,6 +157,12 @@ func runSharded(rc *RunCtx, rep *Report, nWorkers int, body func(sh Shard, rep *
 		if errs[i] != "" {
 			rep.HarnessErr = errs[i]
 			return nums, extra
+		}
+		if c := crashes[i]; c != nil {
+			rep.Exhaustive = false
+			rep.Violate("process-crash/"+c.site, fmt.Sprintf("the process died: %s; last execution started: %s", c.msg, c.exec),
+				map[string]interface{}{"kind": "process-crash", "exec": c.exec})
+			continue
 		}
 		b, err := os.ReadFile(outs[i])
 		if err != nil {
@@ -195,4 +209,45 @@ func runSharded(rc *RunCtx, rep *Report, nWorkers int, body func(sh Shard, rep *
 		nums["distinct:"+name] = int64(len(s))
 	}
 	return nums, extra
+}
+
+type workerCrash struct{ site, msg, exec string }
+
+// crashInRepoCode looks at the log of a worker that died for a Go panic / fatal error raised in onos-config code.
+// It returns the innermost onos-config function of the panicking goroutine, the panic message and the last
+// "EXEC ..." line the worker printed (the execution it was running).
+func crashInRepoCode(log string) (site, msg, exec string) {
+	lines := strings.Split(log, "\n")
+	start := -1
+	for i, l := range lines {
+		if strings.HasPrefix(l, "EXEC ") {
+			exec = strings.TrimPrefix(l, "EXEC ")
+		}
+		if start < 0 && (strings.HasPrefix(l, "panic: ") || strings.HasPrefix(l, "fatal error: ")) {
+			start = i
+			msg = l
+		}
+	}
+	if start < 0 {
+		return "", "", ""
+	}
+	for _, l := range lines[start+1:] {
+		if l == "" && site != "" {
+			break
+		}
+		if strings.HasPrefix(l, "github.com/onosproject/onos-config/") {
+			f := strings.TrimPrefix(l, "github.com/onosproject/onos-config/")
+			if i := strings.LastIndex(f, "("); i > 0 {
+				f = f[:i]
+			}
+			return f, msg, exec
+		}
+		if strings.HasPrefix(l, "verif/mc.") {
+			return "", "", "" // the harness itself panicked
+		}
+		if strings.HasPrefix(l, "goroutine ") && site == "" && !strings.Contains(l, "[running") {
+			break
+		}
+	}
+	return "", "", ""
 }
